@@ -9,7 +9,7 @@ import (
 
 func init() {
 	register("C16",
-		"Decides the structural premises of the stream adapters in nocopy_readwriter.go, not the byte values: (R1) in zcReader.fill every source Read is followed on every path - including the error return, since a source may return data together with an error - by MallocAck(num) and then Flush(), where num is the count Read returned clamped at 0, and the memory read into is the block just reserved; the source's error is what fill returns; (R2) waitRead maps io.EOF to Exception(ErrEOF) and loops until enough is buffered; (R3) zcWriter.Flush commits, writes the readable bytes to the sink, skips exactly the count the sink accepted (guarded n>0), releases, and returns the sink's error; (R4) ioReader.Read copies what Next returned and releases afterwards, reporting io.EOF only when nothing is readable; ioWriter.Write flushes after copying into reserved memory and reports the copied count; (R5) the adapters delegate to the buffer (C01 covers MallocAck(0) / Flush). Not decided: content and ordering of bytes, aliasing of Bytes() in zcWriter.Flush.",
+		"Decides the structural premises of the stream adapters in nocopy_readwriter.go, not the byte values: (R1) in zcReader.fill every source Read is followed on every path - including the error return, since a source may return data together with an error - by MallocAck(num) and then Flush(), where num is the count Read returned clamped at 0, and the memory read into is the block just reserved; the source's error is what fill returns; (R2) waitRead maps io.EOF to Exception(ErrEOF) and loops until enough is buffered; (R3) zcWriter.Flush commits, writes the readable bytes to the sink, skips exactly the count the sink accepted (guarded n>0), releases, and returns the sink's error; (R4) ioReader.Read copies what Next returned and releases afterwards, reporting io.EOF only when nothing is readable; ioWriter.Write flushes after copying into reserved memory and reports the copied count; (R5) the adapters delegate to the buffer (C01 covers MallocAck(0) / Flush). A block freed by Release is not kept referenced by the buffer the stream reader fills (C03.R2). Not decided: content and ordering of bytes, aliasing of Bytes() in zcWriter.Flush.",
 		[]string{"io.Reader / io.Writer contracts: 0 <= n <= len(p)"},
 		func(r *Run) {
 			cfgs := []string{"linux"}
